@@ -31,11 +31,17 @@ def one(patch):
             return sid, "NOBUILD", b.stdout[-300:]
         fired, detail = [], {}
         e2 = dict(env, NEAT_REPO=repo, NEAT_VERIF=vd)
-        for p in props:
-            c = sh(f"{VERIF}/bin/neatcheck check {p} quick", env=e2)
-            if c.returncode != 0:
-                fired.append(p)
-                detail[p] = [l.strip() for l in c.stdout.splitlines() if l.startswith("  violated") or l.startswith("  undecided") or l.startswith("  anchor") or l.startswith("  rule-inert")][:4]
+        c = sh(f"{VERIF}/bin/neatcheck sweep " + " ".join(props), env=e2)
+        if c.returncode not in (0, 1):
+            return sid, "SWEEP-FAILED", c.stdout[-300:]
+        cur = None
+        for l in c.stdout.splitlines():
+            if l.startswith("FIRED "):
+                cur = l.split()[1]; fired.append(cur); detail[cur] = []
+            elif l.startswith("SILENT "):
+                cur = None
+            elif cur and l.startswith("  ") and len(detail[cur]) < 4:
+                detail[cur].append(l.strip())
         return sid, fired, detail
     finally:
         shutil.rmtree(scratch, ignore_errors=True)
